@@ -18,6 +18,7 @@ pub mod sock;
 pub mod mes;
 pub mod elf;
 pub mod nopanic;
+pub mod realbin;
 
 use crate::hv::e1::Case;
 use crate::hv::known::Known;
